@@ -328,7 +328,7 @@ fn gen_cfg(rng: &mut Rng, small: bool) -> Cfg {
         wait_ms: *rng.pick(&[30u64, 30, 30, 100, 100, 100, 100, u64::MAX]),
         permitted: rng.range(1, 3) as u32,
         slow_ms: if rng.chance(1, 3) { Some(20) } else { None },
-        slow_eighths: *rng.pick(&[4u32, 4, 6, 8, 8]),
+        slow_eighths: *rng.pick(&[0u32, 4, 4, 6, 8, 8]),
         classifier: if rng.chance(1, 4) { 1 } else { 0 },
         order: if rng.chance(1, 2) { rng.next_u64() | 1 } else { 0 },
         classifier_first: rng.chance(1, 2),
